@@ -160,7 +160,8 @@ func VerifC02_Default_Conservation() {
 		}
 		return v.pred.BusyCount(), v.pa.BusyCount(), v.pb.BusyCount()
 	}
-	ctx := context.WithValue(context.WithValue(context.Background(), matchers.LookupPartitionContextKey, "a"), matchers.StringPredicateContextKey, "x")
+	// the caller's context is in an arbitrary state (live, or cancelled at any instant)
+	ctx := context.WithValue(context.WithValue(verif.CancelCtx("caller"), matchers.LookupPartitionContextKey, "a"), matchers.StringPredicateContextKey, "x")
 	lst, ok := l.Acquire(ctx)
 	verif.Assert("listener-iff-ok", (lst != nil) == ok)
 	t1, a1, b1 := busy()
@@ -211,5 +212,38 @@ func VerifC02_WrapperListeners() {
 	complete(&QueueBlockingListener{delegateListener: r2, limiter: q})
 	check("queue-listener", r2)
 	verif.Assert("queue-backlog-empty", q.backlog.len() == 0)
+	verif.Reach("end")
+}
+
+// VerifC01_Default_GateDecision (sequential step): DefaultLimiter over the simple / precise strategy
+// from arbitrary counters, the caller's context in an arbitrary state (live or cancelled): the call
+// is granted iff the in-flight count was below the enforced limit - in particular it is never
+// refused while capacity is free, whatever the context says - and a refusal leaves the counter alone.
+//
+//verif:harness property=C01 theory=real tier=quick replay=engine
+func VerifC01_Default_GateDecision() {
+	kind := verif.Choice("strategy", 2)
+	L := verif.Int("limit")
+	verif.Assume(L >= 1 && L < 1<<30)
+	d := &recLimit{est: L}
+	v := verifBuildStrategy(kind, L)
+	l := verifLimiterConfig(d, v.s)
+	verifLimiterState(l)
+	busy0 := verif.Int("busy")
+	verif.Assume(busy0 >= 0 && busy0 < 1<<30)
+	if kind == 0 {
+		strategy.VerifSetSimple(v.simple, int32(busy0), int32(L))
+	} else {
+		strategy.VerifSetPrecise(v.precise, int32(busy0), int32(L))
+	}
+	_, ok := l.Acquire(verif.CancelCtx("caller"))
+	busy1 := 0
+	if kind == 0 {
+		busy1 = v.simple.GetBusyCount()
+	} else {
+		busy1 = v.precise.GetBusyCount()
+	}
+	verif.Assert("granted-iff-below-limit", ok == (busy0 < L))
+	verif.Assert("counter-follows-decision", busy1 == busy0+verif.B2I(ok))
 	verif.Reach("end")
 }
